@@ -48,6 +48,17 @@ LOOPS = {
     # the work is spread over very many short-lived nested activations, none of which runs long by itself
     "eval-tree-recursion": "tr = function (d) { if (d == 0) return 0; eval('tr(' + (d - 1) + ');tr(' + (d - 1) + ')'); return 0 }; tr(30);",
     "Function-tree-recursion": "tf = function (d) { if (d == 0) return 0; var g = new Function('d', 'tf(d - 1); tf(d - 1)'); g(d); return 0 }; tf(30);",
+    # attempts to close a prototype chain into a cycle (each is refused by a TypeError or ignored); the lookups that follow walk
+    # chains inside one native operation, where nothing polls the clock
+    "proto-cycle-attempts": ("var pa = {}, pb = Object.create(pa), pc = Object.create(pb); "
+                             "[function () { Object.setPrototypeOf(pa, pa) }, function () { Object.setPrototypeOf(pa, pc) }, "
+                             "function () { Object.setPrototypeOf(Object.prototype, Object.create(Object.prototype)) }, "
+                             "function () { Object.setPrototypeOf(Object.prototype, pc) }, function () { pa.__proto__ = pc }, "
+                             "function () { Object.setPrototypeOf(Array.prototype, []) }, function () { Object.setPrototypeOf(Function.prototype, function () {}) }, "
+                             "function () { Object.prototype.__proto__ = pc }].forEach(function (t) { try { t() } catch (e) { } }); "
+                             "var seen = [pc.nosuch, 'nosuch' in pc, pc instanceof Object, ({}).nosuch, [].nosuch, (function () {}).nosuch, "
+                             "pc.hasOwnProperty('q'), String(pc), JSON.stringify(pc), Object.keys(pc).length]; for (var k in pc) { seen.push(k) } "
+                             "for (;;) { }"),
     "callback-tree-recursion": "function tc(d) { if (d == 0) return 0; [1, 2].forEach(function () { tc(d - 1) }); return 0 } tc(30);",
 }
 WRAPS = {
@@ -92,6 +103,8 @@ EVAL_PLACES = {
     "eval-in-eval": "(1, eval)({QQ});",
     "new-Function": "new Function({Q})();",
     "Function-in-callback": "[1].forEach(new Function({Q}));",
+    # a body that closes the wrapper the constructor puts around it: the statements run while the function is being made
+    "Function-body-escape": "try { new Function('}); ' + {Q} + ' (function () {') } catch (e) { } for (;;) { }",
     "eval-in-function": "function f() { return (1, eval)({Q}) } f();",
 }
 # ---------------------------------------------------------------- catastrophic regexes and regex-consuming APIs
